@@ -119,6 +119,19 @@ int main(int argc, char** argv) {
 		using CSub = decltype(std::declval<multi::array<int, RD> const&>()());
 		if(std::is_copy_constructible_v<CSub>) violation("C16:const-view-copy-constructible", "a named read-only view can be copy-constructed into another view object", false);
 		if(std::is_assignable_v<CSub&, CSub const&> || std::is_assignable_v<CSub&, Sub const&> || std::is_assignable_v<CSub&&, Sub const&>) violation("C16:const-view-assignable", "a read-only view accepts assignment", false);
+		{	// no implicit or explicit way back from a read-only handle to its mutable counterpart (iterators, views, element ranges, cursors); the other direction exists
+			using Arr = multi::array<int, RD>; using It = typename Arr::iterator; using CIt = typename Arr::const_iterator;
+			using El = decltype(std::declval<Arr&>().elements()); using CEl = decltype(std::declval<Arr const&>().elements()); using EIt = decltype(std::declval<Arr&>().elements().begin()); using CEIt = decltype(std::declval<Arr const&>().elements().begin());
+			using Cur = decltype(std::declval<Arr&>().home()); using CCur = decltype(std::declval<Arr const&>().home());
+			auto fact = [&](bool bad, char const* what) { count("conversion_facts"); if(bad) violation(std::string("C16:const-to-mutable-conversion:") + what, std::string("a read-only ") + what + " converts to / constructs its mutable counterpart", false); };
+			if constexpr(!std::is_same_v<It, CIt>) { fact(std::is_convertible_v<CIt, It>, "iterator(implicit)"); fact(std::is_constructible_v<It, CIt>, "iterator(explicit)"); fact(std::is_assignable_v<It&, CIt>, "iterator(assignment)"); if(!std::is_convertible_v<It, CIt>) info("C16:iterator-to-const_iterator-not-convertible", "iterator does not convert to const_iterator"); }
+			if constexpr(!std::is_same_v<Sub, CSub>) { fact(std::is_convertible_v<CSub, Sub>, "view(implicit)"); fact(std::is_constructible_v<Sub, CSub>, "view(explicit)"); fact(std::is_constructible_v<Sub, CSub const&>, "view(explicit,lvalue)"); }
+			if constexpr(!std::is_same_v<El, CEl>) { fact(std::is_convertible_v<CEl, El>, "elements-range(implicit)"); fact(std::is_constructible_v<El, CEl>, "elements-range(explicit)"); }
+			if constexpr(!std::is_same_v<EIt, CEIt>) { fact(std::is_convertible_v<CEIt, EIt>, "elements-iterator(implicit)"); fact(std::is_constructible_v<EIt, CEIt>, "elements-iterator(explicit)"); }
+			if constexpr(!std::is_same_v<Cur, CCur>) { fact(std::is_convertible_v<CCur, Cur>, "cursor(implicit)"); fact(std::is_constructible_v<Cur, CCur>, "cursor(explicit)"); }
+			using RIt = typename multi::array_ref<int, RD>::iterator; using RCIt = typename multi::array_ref<int, RD>::const_iterator; if constexpr(!std::is_same_v<RIt, RCIt>) { fact(std::is_convertible_v<RCIt, RIt>, "array_ref-iterator(implicit)"); fact(std::is_constructible_v<RIt, RCIt>, "array_ref-iterator(explicit)"); }
+			using SIt = typename std::decay_t<Sub>::iterator; using SCIt = typename std::decay_t<Sub>::const_iterator; if constexpr(!std::is_same_v<SIt, SCIt>) { fact(std::is_convertible_v<SCIt, SIt>, "view-iterator(implicit)"); fact(std::is_constructible_v<SIt, SCIt>, "view-iterator(explicit)"); }
+		}
 		{	// assignment to a view / array_ref assigns elements: it never rebinds or resizes the left-hand side
 			std::vector<int> b1(std::size_t(n), 1), b2(std::size_t(n), 2); for(L i = 0; i < n; ++i) b2[std::size_t(i)] = int(100 + i);
 			multi::array_ref<int, RD> R1(exts, b1.data()); multi::array_ref<int, RD> R2(exts, b2.data()); op("array_ref=array_ref"); R1 = R2;
